@@ -6,6 +6,7 @@ import ast
 
 from gv import rules
 from gv.astutil import FUNC_TYPES
+from gv.astutil import AnalysisError
 from gv.astutil import compare_parts
 from gv.astutil import dotted
 from gv.astutil import last_attr
@@ -61,7 +62,7 @@ def check_purity(ctx: Ctx) -> None:
                 if isinstance(ch, ast.ClassDef):
                     visit(ch, ch.name)
                 elif isinstance(ch, FUNC_TYPES):
-                    res, sites = impure_writes(ch)
+                    res, sites = impure_writes(ch, track_state=True)
                     n_funcs += 1
                     n_sites += sites
                     con = cname(rel, owner, ch.name)
@@ -268,17 +269,19 @@ def check_operator_agreement(ctx: Ctx) -> None:
         elif is_div:
             quot = r
     ctx.need(prod is not None and quot is not None, "_MultiplicationFunctionMaker: product/quotient returns not identified")
-    t = sorted(terms(prod.value), key=str)
-    ok = sorted(t, key=str) == sorted([(1, frozenset({"J1", "F2"})), (1, frozenset({"J2", "F1"}))], key=str)
-    ctx.ob("10.3-derivative", conj, ok, "product rule: (f g)' = f' g + g' f (each operand's Jacobian paired with the other operand's value, both added)", node=prod, slots={"terms": [f"{s:+d}{sorted(x)}" for s, x in t]})
+    from collections import Counter
+
+    t = list(terms(prod.value))
+    ok = Counter(t) == Counter([(1, frozenset({"J1", "F2"})), (1, frozenset({"J2", "F1"}))])
+    ctx.ob("10.3-derivative", conj, ok, "product rule: (f g)' = f' g + g' f (each operand's Jacobian paired with the other operand's value, both added)", node=prod, slots={"terms": sorted(f"{s:+d}{sorted(x)}" for s, x in t)})
     qv = quot.value
     while isinstance(qv, ast.Attribute) and qv.attr == "T":
         qv = qv.value
     ok = isinstance(qv, ast.BinOp) and isinstance(qv.op, ast.Div)
     if ok:
-        num = sorted(terms(qv.left), key=str)
+        num = Counter(terms(qv.left))
         den = qv.right
-        ok = num == sorted([(1, frozenset({"J1", "F2"})), (-1, frozenset({"J2", "F1"}))], key=str) and isinstance(den, ast.BinOp) and isinstance(den.op, ast.Pow) and role.get(dotted(den.left)) == "F2" and getattr(den.right, "value", None) == 2
+        ok = num == Counter([(1, frozenset({"J1", "F2"})), (-1, frozenset({"J2", "F1"}))]) and isinstance(den, ast.BinOp) and isinstance(den.op, ast.Pow) and role.get(dotted(den.left)) == "F2" and getattr(den.right, "value", None) == 2
     ctx.ob("10.3-derivative", conj, ok, "quotient rule: (f / g)' = (f' g - g' f) / g**2", node=quot)
     # value code applies the stored operator to (first, second) in this order
     v = ctx.index.method(OPS, "_OperationFunctionMaker", "_compute_operation")
@@ -287,16 +290,97 @@ def check_operator_agreement(ctx: Ctx) -> None:
     ctx.ob("10.3-value", cname(OPS, "_OperationFunctionMaker", "_compute_operation"), ok, "the value is operator(first(x), second(x) or the constant), in this order", node=(rets or [v])[0])
 
 
+# value function -> its derivative siblings (algos/aggregation/core.py, confirmed by reading)
+AGG_PAIRS = {
+    "compute_upper_bound_ks_agg": ("compute_total_ks_agg_jac", "compute_partial_ks_agg_jac"),
+    "compute_iks_agg": ("compute_total_iks_agg_jac", "compute_partial_iks_agg_jac"),
+    "compute_max_agg": ("compute_max_agg_jac",),
+    "compute_sum_square_agg": ("compute_total_sum_square_agg_jac", "compute_partial_sum_square_agg_jac"),
+    "compute_sum_positive_square_agg": ("compute_total_sum_square_positive_agg_jac", "compute_partial_sum_positive_square_agg_jac"),
+}
+
+
+def check_aggregation(ctx: Ctx) -> None:
+    from gv.cfg import cfg_of
+    from gv.shapes import specialise
+
+    mod = ctx.index.module(AGG)
+    # 10.2: axis kinds with one factor per constraint (``scale: float | ndarray``) and with a number
+    n = 0
+    for name, f in sorted(mod.functions.items()):
+        params = [a.arg for a in f.args.args]
+        if "orig_val" not in params or "scale" not in params:
+            continue
+        con = cname(AGG, None, name)
+        for label, sc in (("one factor per constraint", arr("m")), ("a number", one(("scalar",)))):
+            g = specialise(f, {"indices is not None": False})
+            init = {"orig_val": arr("m"), "scale": sc}
+            if "orig_jac" in params:
+                init["orig_jac"] = arr("m", "n")
+            sa = ShapeAnalysis(g, init)
+            n += 1
+            msgs = sorted({m for _, m in sa.problems})
+            node = sa.problems[0][0] if sa.problems else f
+            ctx.ob("10.2-aggregation", con, not msgs, "; ".join(msgs) + f" (scale is {label}): each constraint's row must be multiplied by that constraint's factor", node=f, stmt=f"{name} is kind-sound when scale is {label}" + (f": `{norm_stmt(node, 60)}`" if msgs else ""))
+    ctx.floor("10.2-aggregation", 28)
+    # 10.4: the derivative is taken of the value actually computed: same pre-scaling of the constraint values
+    for vname, jnames in AGG_PAIRS.items():
+        v = mod.functions.get(vname)
+        if v is None:
+            raise AnalysisError(f"aggregation function {vname} not found")
+
+        def prescale(fn):
+            out = [s for s in stmts_of(fn) if isinstance(s, ast.Assign) and norm_stmt(s.targets[0]) == "orig_val" and isinstance(s.value, ast.BinOp) and isinstance(s.value.op, ast.Mult) and {norm_stmt(s.value.left), norm_stmt(s.value.right)} == {"orig_val", "scale"}]
+            out += [s for s in stmts_of(fn) if isinstance(s, ast.AugAssign) and isinstance(s.op, ast.Mult) and norm_stmt(s.target) == "orig_val" and norm_stmt(s.value) == "scale"]
+            return out
+
+        v_pre = prescale(v)
+        uses_scale = any(isinstance(x, ast.Name) and x.id == "scale" and isinstance(x.ctx, ast.Load) for x in walk_body(v))
+        ctx.ob("10.4-scaling", cname(AGG, None, vname), uses_scale, f"{vname} takes a scale and never uses it", node=v, stmt=f"{vname} uses scale")
+        for jn in jnames:
+            j = mod.functions.get(jn)
+            con = cname(AGG, None, jn)
+            if j is None:
+                ctx.ob("10.4-scaling", con, False, f"the derivative {jn} of {vname} is missing", node=v, stmt=f"{jn} defined")
+                continue
+            j_pre = prescale(j)
+            ok = bool(v_pre) == bool(j_pre)
+            if ok and j_pre:
+                # the scaled values are what every later expression reads
+                cfg = cfg_of(j)
+                pre = cfg.node_of(j_pre[0])
+                for st in stmts_of(j):
+                    if st is j_pre[0] or not cfg.has(st) or isinstance(st, (ast.If, ast.For, ast.While)):
+                        continue
+                    loads = [x for x in ast.walk(st) if isinstance(x, ast.Name) and x.id == "orig_val" and isinstance(x.ctx, ast.Load)]
+                    rebind = isinstance(st, ast.Assign) and norm_stmt(st.targets[0]) == "orig_val"
+                    if loads and not rebind and not cfg.dominates(pre, cfg.node_of(st)):
+                        # reading only the size of the unscaled values is harmless
+                        size_reads = [a.value for a in ast.walk(st) if isinstance(a, ast.Attribute) and a.attr in ("size", "shape", "ndim")]
+                        ok = ok and all(any(x is r for r in size_reads) for x in loads)
+            ctx.ob("10.4-scaling", con, ok, f"{vname} {'scales' if v_pre else 'does not scale'} the constraint values before aggregating them, {jn} {'does' if j_pre else 'does not'}: the Jacobian is not the derivative of the value as soon as scale != 1", node=(j_pre or [j])[0], stmt=f"{jn} pre-scales the constraint values like {vname}")
+            uses = any(isinstance(x, ast.Name) and x.id == "scale" and isinstance(x.ctx, ast.Load) for st in stmts_of(j) if st not in j_pre for x in ast.walk(st))
+            ctx.ob("10.4-scaling", con, uses, f"{jn}: by the chain rule the derivative carries the factor scale once more (d(scale g)/dx = scale dg/dx); it is not applied", node=j, stmt=f"{jn} applies the factor of the chain rule")
+    ctx.floor("10.4-scaling", 20)
+
+
 def run(ctx: Ctx) -> None:
     check_purity(ctx)
     check_shapes(ctx)
     check_operator_agreement(ctx)
+    check_aggregation(ctx)
 
 
 # ---------------------------------------------------------------------------
 WITNESSES = [
     {"name": "ks-scales-in-place", "file": AGG, "old": "    orig_val = orig_val * scale\n", "new": "    orig_val *= scale\n", "nth": 0, "expect": "10.1"},
-    {"name": "jac-scaled-in-place", "file": AGG, "old": "    orig_jac = orig_jac * scale\n", "new": "    orig_jac *= scale\n", "nth": 0, "expect": "10.1"},
+    {"name": "jac-scaled-in-place", "file": AGG, "old": "    orig_jac = (orig_jac.T * scale).T\n", "new": "    orig_jac *= scale\n", "nth": 0, "expect": "10.1"},
+    {"name": "jac-scaled-along-inputs", "file": AGG, "old": "    orig_jac = (orig_jac.T * scale).T\n", "new": "    orig_jac = orig_jac * scale\n", "nth": 1, "expect": "10.2"},
+    {"name": "jac-weights-from-unscaled-values", "file": AGG, "old": "    orig_jac = (orig_jac.T * scale).T\n    orig_val = orig_val * scale\n\n    m = max(orig_val)\n    div =", "new": "    orig_jac = (orig_jac.T * scale).T\n\n    m = max(orig_val)\n    div =", "expect": "10.4"},
+    {"name": "partial-jac-without-chain-factor", "file": AGG, "old": "    der = atleast_2d(multiply(weights, scale))", "new": "    der = atleast_2d(weights)", "expect": "10.4"},
+    {"name": "max-jac-of-unscaled-rows", "file": AGG, "old": "    orig_jac = (orig_jac.T * scale).T\n    orig_val = orig_val * scale\n    i_max", "new": "    orig_val = orig_val * scale\n    i_max", "expect": "10.4"},
+    {"name": "linear-normalize-aliases-sparse-coefficients", "file": "core/mdo_functions/mdo_linear_function.py", "old": "            coefficients = deepcopy(self.coefficients)\n", "new": "            coefficients = self.coefficients.tocsr()\n", "expect": "10.1"},
+    {"name": "convex-approx-writes-into-operand-jacobian", "file": "core/mdo_functions/convex_linear_approx.py", "old": "        value = atleast_2d(self.__mdo_function.jac(merged_vect)).copy()\n", "new": "        value = atleast_2d(self.__mdo_function.jac(merged_vect))\n", "expect": "10.1"},
     {"name": "item-assignment-into-operand", "file": AGG, "old": "    alpha = len(orig_val)\n", "new": "    alpha = len(orig_val)\n    orig_val[0] = orig_val[0] + 0.0\n", "expect": "10.1"},
     {"name": "in-place-through-view", "file": AGG, "old": "    alpha = len(orig_val)\n", "new": "    alpha = len(orig_val)\n    view = atleast_2d(orig_val)\n    view *= 1.0\n", "expect": "10.1"},
     {"name": "out-argument-is-operand", "file": AGG, "old": "    alpha = len(orig_val)\n", "new": "    alpha = len(orig_val)\n    multiply(orig_val, 1.0, out=orig_val)\n", "expect": "10.1"},
@@ -314,6 +398,8 @@ WITNESSES = [
     {"name": "value-operands-swapped", "file": OPS, "old": "        return self._operator(self._first_operand.func(input_value), second_operand)", "new": "        return self._operator(second_operand, self._first_operand.func(input_value))", "expect": "10.3"},
 ]
 TWINS = [
+    {"name": "jac-scaled-commuted", "file": AGG, "old": "    orig_jac = (orig_jac.T * scale).T\n", "new": "    orig_jac = (scale * orig_jac.T).T\n", "nth": 0},
+    {"name": "convex-approx-copies-with-array", "file": "core/mdo_functions/convex_linear_approx.py", "old": "        value = atleast_2d(self.__mdo_function.jac(merged_vect)).copy()\n", "new": "        value = array(self.__mdo_function.jac(merged_vect), ndmin=2)\n"},
     {"name": "fresh-copy-then-in-place", "file": AGG, "old": "    orig_val = orig_val * scale\n", "new": "    orig_val = orig_val.copy()\n    orig_val *= scale\n", "nth": 0},
     {"name": "product-terms-swapped", "file": OPS, "old": "            return (first_jac_t * second_func + second_jac_t * first_func).T", "new": "            return (second_jac_t * first_func + second_func * first_jac_t).T"},
     {"name": "transpose-attribute", "file": OPS, "old": "        first_jac_t = numpy.transpose(first_jac)", "new": "        first_jac_t = first_jac.T"},
